@@ -359,6 +359,8 @@ def run_shard(ctx: Ctx, acc: Acc):
         acc.case()
         for k, v in sim.obs.items():
             acc.count(k, v)
+        acc.count("trace-events", len(sim.c.trace) + len(sim.s.trace))
+        acc.count("messages-sent-and-tracked", len(sim.sent["c"]) + len(sim.sent["s"]))
         sig = h64(tuple(sim.log))
         if sig not in sigs:
             sigs.add(sig)
